@@ -28,6 +28,15 @@ def residual_nnls(matrix: ArrayLike, data: ArrayLike) -> tuple[ArrayLike, ArrayL
     tuple[ArrayLike, ArrayLike]
         The clps and the residual.
     """
-    clp, _ = nnls(matrix, data)
+    # scipy's nnls decides with absolute tolerances, so it is not invariant to the units of the
+    # data or of the matrix columns (tiny data gives all-zero clps). NNLS itself is invariant to
+    # positive scaling of the data and of each column: solve in units where both have magnitude 1.
+    data_scale = np.max(np.abs(data), initial=0.0)
+    if data_scale == 0:
+        data_scale = 1.0
+    column_scales = np.max(np.abs(matrix), axis=0, initial=0.0)
+    column_scales[column_scales == 0] = 1.0
+    clp, _ = nnls(matrix / column_scales, data / data_scale)
+    clp *= data_scale / column_scales
     residual = data - np.dot(matrix, clp)
     return clp, residual
